@@ -73,13 +73,15 @@ theorem stopped_state {x : Inst} (inv : LInv x) (hs : x.everStopped = true) (hp 
 /-- AST facts: `becomeLeader` refuses when the election is stopped; `becomeFollower` keeps STOPPED after a stop;
     `StopWithContext` deletes only for an owner (or a record acquired while stopping); the only `go` statements not
     tracked by the WaitGroup are the stop calls' own helpers, the heartbeat's Update and the validation's Get
-    sub-goroutines (which only finish an operation already in flight) and the adapters' forwarders. -/
+    sub-goroutines (which only finish an operation already in flight), the diagnostic read after a refused refresh
+    (issued at the demotion, skipped when a stop call has already ended the term) and the adapters' forwarders. -/
 theorem shape :
     Gen.becomeLeaderRefusesWhenStopped = true ∧ Gen.becomeFollowerKeepsStopped = true ∧
     Gen.deleteOnlyForOwnerOrAcquired = true ∧
     Gen.untrackedGo = ["MockWatcherAdapter.Updates", "StartEmbeddedNATSServer", "StartEmbeddedNATSServer", "kvElection.Stop",
       "kvElection.StopWithContext", "kvElection.StopWithContext", "kvElection.StopWithContext", "kvElection.StopWithContext",
-      "kvElection.StopWithContext", "kvElection.heartbeatLoop", "kvElection.validateToken", "natsWatcherAdapter.Updates"] := by decide
+      "kvElection.StopWithContext", "kvElection.heartbeatLoop", "kvElection.logTakeoverAfterRefusedRefresh", "kvElection.validateToken",
+      "natsWatcherAdapter.Updates"] := by decide
 
 /-! ### Time budget of the stop calls
 
@@ -113,6 +115,12 @@ theorem stop_returns_when_done (budget : Nat) (ds : List Nat) (el : Nat) (h : el
     simp only [h1, if_true]
     rw [ih (el + d) (by omega)]
     omega
+
+/-- A run never overlaps the wind-down of the previous one (regenerated fact): `Start` is refused while a stop call is in
+    progress and while the goroutines of a run that a stop call gave up waiting for have not all returned — so the
+    WaitGroup is never reused under a pending `Wait` (the data race the race detector reported once restarts ran in race
+    mode), and store operations of an abandoned run cannot interleave with a new one. -/
+theorem runs_do_not_overlap_shape : Gen.startRefusedWhileWindingDown = true := by decide
 
 /-- The source has that structure (regenerated facts): one deadline, every wait under it, the deletion issued from a
     goroutine; 5 s for `Stop` and as the default of `StopWithContext`. -/
